@@ -191,7 +191,7 @@ static ChildRes in_child(const std::function<std::string()> &f, int seconds) {
     int fd[2]; if (pipe(fd)) { perror("pipe"); exit(2); }
     std::cout << std::flush;
     pid_t pid = fork();
-    if (pid == 0) { close(fd[0]); alarm(seconds); std::string s = f(); size_t off = 0; while (off < s.size()) { ssize_t w = write(fd[1], s.data() + off, s.size() - off); if (w <= 0) break; off += w; } _exit(0); }
+    if (pid == 0) { close(fd[0]); vr::cpu_alarm(seconds); std::string s = f(); size_t off = 0; while (off < s.size()) { ssize_t w = write(fd[1], s.data() + off, s.size() - off); if (w <= 0) break; off += w; } _exit(0); }
     close(fd[1]); ChildRes r; char buf[65536]; ssize_t k; while ((k = read(fd[0], buf, sizeof buf)) > 0) r.text.append(buf, k); close(fd[0]);
     int st = 0; waitpid(pid, &st, 0);
     if (WIFSIGNALED(st)) { r.sig = WTERMSIG(st); if (r.sig == SIGALRM) r.hang = true; else r.crash = true; }
@@ -393,7 +393,7 @@ static void mode_pattern() {
         int fd[2]; if (pipe(fd)) { perror("pipe"); exit(2); }
         pid_t pid = fork();
         if (pid == 0) {
-            close(fd[0]); alarm(5);
+            close(fd[0]); vr::cpu_alarm(5);
             vr::obj o;
             try {
                 boost::property_tree::ptree pt; pt.put("pmask_size", j.n); pt.put("pmask_pattern", j.pat);
